@@ -533,3 +533,180 @@ pub(crate) struct MarketPriceOptions {
     pub(crate) allow_long_closed: bool,
     pub(crate) allow_short_closed: bool,
 }
+
+/// Verification hooks (add-only, compiled only with `--cfg gmsol_verif`).
+#[cfg(gmsol_verif)]
+pub mod verif {
+    use super::*;
+
+    /// Hooks of the private `feed` module.
+    pub use super::feed::verif as feed;
+
+    /// Public projection of the private `OraclePrice` / `OraclePriceParts`.
+    #[derive(Debug, Clone, Copy)]
+    pub struct ParsedPrice {
+        /// Provider (only set by [`parse_from_feed_account`]).
+        pub provider: Option<PriceProviderKind>,
+        /// Oracle slot.
+        pub oracle_slot: u64,
+        /// Oracle timestamp.
+        pub oracle_ts: i64,
+        /// Price.
+        pub price: gmsol_utils::Price,
+        /// Reference price.
+        pub ref_price: Option<Decimal>,
+        /// Is open.
+        pub is_open: bool,
+    }
+
+    fn project(provider: Option<PriceProviderKind>, parts: OraclePriceParts) -> ParsedPrice {
+        ParsedPrice {
+            provider,
+            oracle_slot: parts.oracle_slot,
+            oracle_ts: parts.oracle_ts,
+            price: parts.price,
+            ref_price: parts.ref_price,
+            is_open: parts.is_open,
+        }
+    }
+
+    /// `try_adjust_price_with_max_deviation_factor`.
+    pub fn try_adjust_price_with_max_deviation_factor(
+        factor: &u128,
+        price: &gmsol_utils::Price,
+        ref_price: Option<&Decimal>,
+    ) -> Option<gmsol_utils::Price> {
+        super::try_adjust_price_with_max_deviation_factor(factor, price, ref_price)
+    }
+
+    /// `try_adjust_price` on explicit parts. Returns (adjusted, price after).
+    pub fn try_adjust_price(
+        feed_config: &FeedConfig,
+        price: gmsol_utils::Price,
+        ref_price: Option<Decimal>,
+    ) -> Result<(bool, gmsol_utils::Price)> {
+        let mut parts = OraclePriceParts {
+            oracle_slot: 0,
+            oracle_ts: 0,
+            price,
+            ref_price,
+            is_open: true,
+        };
+        let adjusted = super::try_adjust_price(feed_config, &mut parts)?;
+        Ok((adjusted, parts.price))
+    }
+
+    /// [`PriceFeed::check_and_get_price`].
+    pub fn feed_check_and_get_price(
+        feed: &PriceFeed,
+        clock: &Clock,
+        token_config: &TokenConfig,
+        allow_closed: bool,
+    ) -> Result<ParsedPrice> {
+        Ok(project(
+            None,
+            feed.check_and_get_price(clock, token_config, allow_closed)?,
+        ))
+    }
+
+    /// `OraclePrice::parse_from_feed_account`.
+    pub fn parse_from_feed_account<'info>(
+        clock: &Clock,
+        token_config: &TokenConfig,
+        account: &'info AccountInfo<'info>,
+        allow_closed: bool,
+    ) -> Result<ParsedPrice> {
+        let price = OraclePrice::parse_from_feed_account(clock, token_config, account, allow_closed)?;
+        Ok(project(Some(price.provider), price.parts))
+    }
+
+    /// [`Oracle::init`].
+    pub fn oracle_init(oracle: &mut Oracle, store: Pubkey, authority: Pubkey) {
+        oracle.init(store, authority)
+    }
+
+    /// [`Oracle::clear_all_prices`].
+    pub fn oracle_clear_all_prices(oracle: &mut Oracle) {
+        oracle.clear_all_prices()
+    }
+
+    /// Number of prices in the primary price map.
+    pub fn oracle_primary_len(oracle: &Oracle) -> usize {
+        oracle.primary.len()
+    }
+
+    /// `PriceMap::set` on the primary map of the oracle.
+    pub fn oracle_primary_set(
+        oracle: &mut Oracle,
+        token: &Pubkey,
+        price: gmsol_utils::Price,
+        is_synthetic: bool,
+        is_open: bool,
+    ) -> Result<()> {
+        oracle.primary.set(token, price, is_synthetic, is_open)
+    }
+
+    /// `Oracle::update_oracle_ts_and_slot`.
+    pub fn oracle_update_ts_and_slot(oracle: &mut Oracle, validator: PriceValidator) -> Result<()> {
+        oracle.update_oracle_ts_and_slot(validator)
+    }
+
+    /// [`Oracle::set_prices_from_remaining_accounts`].
+    pub fn oracle_set_prices_from_remaining_accounts<'info>(
+        oracle: &mut Oracle,
+        validator: PriceValidator,
+        map: &TokenMapRef,
+        tokens: &[Pubkey],
+        remaining_accounts: &'info [AccountInfo<'info>],
+        allow_closed: bool,
+    ) -> Result<()> {
+        oracle.set_prices_from_remaining_accounts(
+            validator,
+            map,
+            tokens,
+            remaining_accounts,
+            allow_closed,
+        )
+    }
+
+    /// [`Oracle::with_prices_opts`].
+    pub fn oracle_with_prices_opts<'info, T>(
+        oracle: &mut Oracle,
+        store: &AccountLoader<'info, Store>,
+        token_map: &AccountLoader<'info, TokenMapHeader>,
+        tokens: &[Pubkey],
+        remaining_accounts: &'info [AccountInfo<'info>],
+        f: impl FnOnce(&mut Oracle, &'info [AccountInfo<'info>]) -> Result<T>,
+        allow_closed: bool,
+    ) -> Result<T> {
+        oracle.with_prices_opts(store, token_map, tokens, remaining_accounts, f, allow_closed)
+    }
+
+    /// [`Oracle::validate_time`].
+    pub fn oracle_validate_time(
+        oracle: &Oracle,
+        target: &impl ValidateOracleTime,
+    ) -> CoreResult<()> {
+        oracle.validate_time(target)
+    }
+
+    /// [`Oracle::validate_time`] against a [`MaxAgeValidator`].
+    pub fn oracle_validate_max_age(oracle: &Oracle, max_age: u32) -> CoreResult<()> {
+        oracle.validate_time(&MaxAgeValidator::new(max_age))
+    }
+
+    /// [`Oracle::get_primary_price_with_options`].
+    pub fn oracle_get_primary_price_with_options(
+        oracle: &Oracle,
+        token: &Pubkey,
+        allow_synthetic: bool,
+        allow_closed: bool,
+    ) -> Result<gmsol_model::price::Price<u128>> {
+        oracle.get_primary_price_with_options(token, allow_synthetic, allow_closed)
+    }
+
+    /// [`Oracle::is_open`].
+    pub fn oracle_is_open(oracle: &Oracle, token: &Pubkey) -> Result<bool> {
+        oracle.is_open(token)
+    }
+}
